@@ -56,30 +56,40 @@ def r2_inplace(rep, facts):
     order_ok = assign_idx is not None and store_idx is not None and assign_idx < store_idx
     rep.check(R, d + '|carries-decor', carried and order_ok, '*value.decor_mut() = existing_decor.clone() before storing',
               '`Array::replace` does not copy the replaced element\'s decor onto the new value before storing it (comments/whitespace around the element are lost)', facts.loc(b))
-    # push / insert decorate; *_formatted do not
+    # push / insert give the new element the default decoration (" " before it when the array already has elements, nothing when it is the
+    # first; no suffix); the *_formatted forms store the value as given.  Decided by evaluating each method on an empty and a non-empty array
+    # with `decorate` / `decor_mut` / `fmt` and the Vec operations recorded (whatever helper or closure the decoration goes through).
+    from .den import RecInterp, Unanalysable as UN
     for d, want in (('toml_edit::array::Array::push', True), ('toml_edit::array::Array::insert', True),
                     ('toml_edit::array::Array::push_formatted', False), ('toml_edit::array::Array::insert_formatted', False),
                     ('toml_edit::array::Array::replace_formatted', False)):
         b = facts.body(d)
-        vops = [n for n in walk(b['body']) if n.get('k') == 'mcall' and n.get('name') == 'value_op']
-        deco = [n for n in walk(b['body']) if n.get('k') == 'mcall' and n.get('name') in ('decorate', 'decor_mut', 'fmt')]
+        pn = [p['name'] for p in b.get('params', []) if p.get('k') == 'p_bind']
+        got = {}
+        try:
+            for n_el in (0, 2):
+                it = RecInterp(Evaluator(facts), {'decorate', 'decor_mut', 'fmt', 'push', 'insert', 'set_prefix', 'set_suffix', 'replace', 'get_mut', 'remove'})
+                env = {pn[0]: ('struct', 'Array', {'values': tuple(('item',) for _ in range(n_el)), 'trailing_comma': False}), '@assign': {}, '@calls': []}
+                for extra in pn[1:]:
+                    env[extra] = ('value',) if extra == pn[-1] else 0
+                from .den import EvalPanic
+                try:
+                    it.val(b['body'], env)
+                except EvalPanic:
+                    pass            # e.g. replace_formatted(0, ..) on an empty array: a documented panic, nothing was decorated before it
+                except Exception as ex:
+                    if not hasattr(ex, 'v'):
+                        raise
+                got[n_el] = [(nm, tuple(a for a in args if isinstance(a, str))) for nm, args in it.calls if nm in ('decorate', 'decor_mut', 'fmt', 'set_prefix', 'set_suffix')]
+        except UN as e:
+            rep.incomplete(R, d + ('|decorates' if want else '|verbatim'), f'cannot evaluate: {e}', facts.loc(b))
+            continue
         if want:
-            flag = None
-            if vops:
-                a = peel(vops[0]['args'][1])
-                flag = a.get('v') if a.get('k') == 'lit' else None
-            rep.check(R, d + '|decorates', bool(vops) and flag is True, 'value_op(.., true, ..)', f'`{d}` no longer gives the new element default decoration through value_op(.., true, ..)', facts.loc(b))
+            ok = got == {0: [('decorate', ('', ''))], 2: [('decorate', (' ', ''))]}
+            rep.check(R, d + '|decorates', ok, 'first element: decorate("", ""); later elements: decorate(" ", "")',
+                      f'`{d}` decorates the new element with {got[0]} in an empty array and {got[2]} in a non-empty one, expected decorate("", "") / decorate(" ", "")', facts.loc(b))
         else:
-            rep.check(R, d + '|verbatim', not vops and not deco, 'stores the value as given', f'`{d}` changes the decor of an already formatted value', facts.loc(b))
-    # value_op: " " prefix when non-empty, "" when empty
-    b = facts.body('toml_edit::array::Array::value_op')
-    lits = []
-    for n in walk(b['body']):
-        if n.get('k') == 'mcall' and n.get('name') == 'decorate':
-            lits.append(tuple(peel(a).get('v') for a in n['args']))
-    rep.check(R, 'Array::value_op|default-decor', sorted(lits) == [('', ''), (' ', '')], 'decorate(" ", "") after the first element, decorate("", "") for the first',
-              f'value_op decorates with {lits}', facts.loc(b))
-
+            rep.check(R, d + '|verbatim', not got[0] and not got[2], 'stores the value as given', f'`{d}` changes the decor of an already formatted value ({got})', facts.loc(b))
 
 def r3_conversions(rep, facts):
     R = rep.rule('C08/R3', 'conversions between inline and standard forms move the item storage wholesale and convert every element', floor=6)
